@@ -13,7 +13,6 @@ use pvcore::bv::Val;
 use pvcore::evalref::*;
 use pvcore::run::*;
 use pvcore::sysgen::*;
-use pvcore::terms::*;
 use pvcore::tsref::{Ts, key as vkey};
 use rayon::prelude::*;
 use rustc_hash::{FxHashMap, FxHashSet};
@@ -258,8 +257,16 @@ impl Tab {
     }
 }
 
-pub fn check_system(spec: &SysSpec) -> (Option<Fail>, Info) {
+pub fn check_system(spec: &SysSpec) -> (Vec<Fail>, Info) {
     let mut info = Info::default();
+    // the first failure per (class, variant); the checks go on so that the syntactic and the
+    // semantic oracle both get to speak
+    let mut fails: Vec<Fail> = vec![];
+    fn record(fails: &mut Vec<Fail>, f: Fail) {
+        if !fails.iter().any(|g| g.class == f.class && g.variant == f.variant) {
+            fails.push(f);
+        }
+    }
     let mut ctx = Context::default();
     let built = spec.build(&mut ctx);
     let sys = built.sys;
@@ -271,8 +278,9 @@ pub fn check_system(spec: &SysSpec) -> (Option<Fail>, Info) {
     let n_in = sys.inputs.len();
     let root_shape = |r: ExprRef| -> String {
         let role = observables(&ctx, &sys, false).into_iter().find(|o| o.e == r).map(|o| o.kind).unwrap_or("inner");
-        format!("{role}:{}", expr_op_name(&ctx, r))
+        role.to_string()
     };
+    let sym_kind = |e: ExprRef| if sys.inputs.contains(&e) { "input" } else if sys.states.iter().any(|s| s.symbol == e) { "state" } else { "foreign" };
     let name_of = |e: ExprRef| show_expr(&ctx, e);
 
     // ---- (a) and (b) for every root and variant; remember the reported cones
@@ -284,7 +292,10 @@ pub fn check_system(spec: &SysSpec) -> (Option<Fail>, Info) {
             let w = ty_width(ty_of(&ctx, *r));
             let real = match real_cone(&ctx, &sys, *r, v) {
                 Ok(c) => c,
-                Err(p) => return (Some(Fail { class: format!("panic|{}", p.file()), variant: VARIANTS[v], shape: root_shape(*r), width: w, what: format!("cone ({}) of `{}` panicked: {} ({})", VARIANTS[v], name_of(*r), p.msg, p.short_loc()) }), info),
+                Err(p) => {
+                    record(&mut fails, Fail { class: format!("panic|{}", p.file()), variant: VARIANTS[v], shape: root_shape(*r), width: w, what: format!("cone ({}) of `{}` panicked: {} ({})", VARIANTS[v], name_of(*r), p.msg, p.short_loc()) });
+                    continue;
+                }
             };
             let mine = my_cone(&ctx, &sys, *r, v <= 1, v == 0);
             for (x, u) in universe.iter().enumerate() {
@@ -306,20 +317,20 @@ pub fn check_system(spec: &SysSpec) -> (Option<Fail>, Info) {
             }
             for e in real.iter() {
                 if !universe.contains(e) {
-                    return (Some(Fail { class: "foreign-symbol".into(), variant: VARIANTS[v], shape: root_shape(*r), width: w, what: format!("the {} cone of `{}` contains `{}` which is neither an input nor a state", VARIANTS[v], name_of(*r), name_of(*e)) }), info);
+                    record(&mut fails, Fail { class: "foreign-symbol".into(), variant: VARIANTS[v], shape: root_shape(*r), width: w, what: format!("the {} cone of `{}` contains `{}` which is neither an input nor a state", VARIANTS[v], name_of(*r), name_of(*e)) });
                 }
             }
             let real_set: BTreeSet<ExprRef> = real.iter().cloned().collect();
             if let Some(extra) = real_set.difference(&mine).next() {
-                return (
-                    Some(Fail { class: "not-tight".into(), variant: VARIANTS[v], shape: root_shape(*r), width: w, what: format!("the {} cone of `{}` contains {} on which it does not depend through children{}{} links (reported [{}])", VARIANTS[v], name_of(*r), name_of(*extra), if v <= 1 { "/init" } else { "" }, if v == 0 { "/next" } else { "" }, real.iter().map(|e| name_of(*e)).collect::<Vec<_>>().join(", ")) }),
-                    info,
+                record(
+                    &mut fails,
+                    Fail { class: "not-tight".into(), variant: VARIANTS[v], shape: format!("{}/{}", root_shape(*r), sym_kind(*extra)), width: w, what: format!("the {} cone of `{}` contains {} on which it does not depend through children{}{} links (reported [{}])", VARIANTS[v], name_of(*r), name_of(*extra), if v <= 1 { "/init" } else { "" }, if v == 0 { "/next" } else { "" }, real.iter().map(|e| name_of(*e)).collect::<Vec<_>>().join(", ")) },
                 );
             }
             if let Some(missing) = mine.difference(&real_set).next() {
-                return (
-                    Some(Fail { class: "missing-symbol".into(), variant: VARIANTS[v], shape: root_shape(*r), width: w, what: format!("the {} cone of `{}` lacks {} which the root reaches through children{}{} links (reported [{}])", VARIANTS[v], name_of(*r), name_of(*missing), if v <= 1 { "/init" } else { "" }, if v == 0 { "/next" } else { "" }, real.iter().map(|e| name_of(*e)).collect::<Vec<_>>().join(", ")) }),
-                    info,
+                record(
+                    &mut fails,
+                    Fail { class: "missing-symbol".into(), variant: VARIANTS[v], shape: format!("{}/{}", root_shape(*r), sym_kind(*missing)), width: w, what: format!("the {} cone of `{}` lacks {} which the root reaches through children{}{} links (reported [{}])", VARIANTS[v], name_of(*r), name_of(*missing), if v <= 1 { "/init" } else { "" }, if v == 0 { "/next" } else { "" }, real.iter().map(|e| name_of(*e)).collect::<Vec<_>>().join(", ")) },
                 );
             }
             for (x, u) in universe.iter().enumerate() {
@@ -342,8 +353,10 @@ pub fn check_system(spec: &SysSpec) -> (Option<Fail>, Info) {
             what: format!("{} is outside the {} cone of `{}` but changing it changes the value: {detail}", name_of(universe[x]), VARIANTS[v], name_of(r)),
         }
     };
+    // once a variant has produced an `insufficient` failure its comparisons stop
+    let mut dead = [false; 3];
     // combinational: states and inputs are free variables
-    for (x, roots) in excluded[2].iter().enumerate() {
+    'comb: for (x, roots) in excluded[2].iter().enumerate() {
         if roots.is_empty() {
             continue;
         }
@@ -359,7 +372,9 @@ pub fn check_system(spec: &SysSpec) -> (Option<Fail>, Info) {
                     for ri in roots.iter() {
                         info.root_compares += 1;
                         if tab.v(s, i, *ri) != tab.v(s2, i2, *ri) {
-                            return (Some(insufficient(2, *ri, x, format!("states [{}] inputs [{}] versus states [{}] inputs [{}]", tab.show_state(s), tab.show_input(i), tab.show_state(s2), tab.show_input(i2)))), info);
+                            record(&mut fails, insufficient(2, *ri, x, format!("states [{}] inputs [{}] versus states [{}] inputs [{}]", tab.show_state(s), tab.show_input(i), tab.show_state(s2), tab.show_input(i2))));
+                            dead[2] = true;
+                            break 'comb;
                         }
                     }
                 }
@@ -375,8 +390,8 @@ pub fn check_system(spec: &SysSpec) -> (Option<Fail>, Info) {
         let roots_full = &excluded[0][x];
         let init_perturbable = xk.is_none() || x_initless;
         let full_perturbable = xk.is_none() || x_initless || x_nextless;
-        let do_init = !roots_init.is_empty() && init_perturbable;
-        let do_full = !roots_full.is_empty() && full_perturbable;
+        let do_init = !roots_init.is_empty() && init_perturbable && !dead[1];
+        let do_full = !roots_full.is_empty() && full_perturbable && !dead[0];
         if !do_init && !do_full {
             continue;
         }
@@ -413,25 +428,29 @@ pub fn check_system(spec: &SysSpec) -> (Option<Fail>, Info) {
                 for i in 0..tab.ni {
                     let i2s = if x < n_in { tab.input_variants(i, x) } else { vec![i] };
                     for i2 in i2s {
-                        if do_full {
+                        if do_full && !dead[0] {
                             info.perturbed_steps[0] += 1;
                             for ri in roots_full.iter() {
                                 info.root_compares += 1;
                                 if tab.v(s, i, *ri) != tab.v(s2, i2, *ri) {
-                                    return (Some(insufficient(0, *ri, x, format!("at step {t} one execution is in state [{}] with inputs [{}], the perturbed one in state [{}] with inputs [{}]", tab.show_state(s), tab.show_input(i), tab.show_state(s2), tab.show_input(i2)))), info);
+                                    record(&mut fails, insufficient(0, *ri, x, format!("at step {t} one execution is in state [{}] with inputs [{}], the perturbed one in state [{}] with inputs [{}]", tab.show_state(s), tab.show_input(i), tab.show_state(s2), tab.show_input(i2))));
+                                    dead[0] = true;
+                                    break;
                                 }
                             }
                         }
-                        if t == 0 && do_init {
+                        if t == 0 && do_init && !dead[1] {
                             info.perturbed_steps[1] += 1;
                             for ri in roots_init.iter() {
                                 info.root_compares += 1;
                                 if tab.v(s, i, *ri) != tab.v(s2, i2, *ri) {
-                                    return (Some(insufficient(1, *ri, x, format!("right after initialisation: state [{}] inputs [{}] versus state [{}] inputs [{}]", tab.show_state(s), tab.show_input(i), tab.show_state(s2), tab.show_input(i2)))), info);
+                                    record(&mut fails, insufficient(1, *ri, x, format!("right after initialisation: state [{}] inputs [{}] versus state [{}] inputs [{}]", tab.show_state(s), tab.show_input(i), tab.show_state(s2), tab.show_input(i2))));
+                                    dead[1] = true;
+                                    break;
                                 }
                             }
                         }
-                        if t < steps {
+                        if t < steps && !dead[0] {
                             tab.successor_pairs(s, i, s2, i2, if x_nextless { xk } else { None }, &mut next);
                         }
                     }
@@ -442,7 +461,7 @@ pub fn check_system(spec: &SysSpec) -> (Option<Fail>, Info) {
             layer = next;
         }
     }
-    (None, info)
+    (fails, info)
 }
 
 pub fn meta(rep: &mut Report) {
@@ -456,8 +475,8 @@ pub fn meta(rep: &mut Report) {
 
 fn report(spec: &SysSpec, f: &Fail, order: u64, rep: &Report) {
     let (class, variant) = (f.class.clone(), f.variant);
-    let min = shrink_spec(spec, &|s| matches!(check_system(s).0, Some(g) if g.class == class && g.variant == variant));
-    let f2 = check_system(&min).0.filter(|g| g.class == class && g.variant == variant).unwrap_or_else(|| f.clone());
+    let min = shrink_spec(spec, &|s| check_system(s).0.iter().any(|g| g.class == class && g.variant == variant));
+    let f2 = check_system(&min).0.into_iter().find(|g| g.class == class && g.variant == variant).unwrap_or_else(|| f.clone());
     let sig = format!("C17|{}|{}|{}|{}", f2.class, f2.variant, wclass(f2.width.max(1)), f2.shape);
     rep.violation(Violation { sig, what: format!("[{}] {}", sys_class(spec), f2.what), case: json!({"system": min.to_json(), "found_in": spec.to_json()}), order });
 }
@@ -469,13 +488,14 @@ pub fn run(opts: &Opts, rep: &Report) {
     rep.add("systems", specs.len() as u64);
     let capped = AtomicBool::new(false);
     let skipped = AtomicU64::new(0);
+    let failing: Collector<(SysSpec, Fail)> = Collector::default();
     specs.par_iter().enumerate().for_each(|(idx, spec)| {
         if budget.exceeded() {
             capped.store(true, Ordering::Relaxed);
             skipped.fetch_add(1, Ordering::Relaxed);
             return;
         }
-        let (f, info) = check_system(spec);
+        let (fs, info) = check_system(spec);
         let mut c: BTreeMap<String, u64> = BTreeMap::new();
         c.insert("evaluations".into(), info.cone_calls);
         c.insert("traces_validated_against_impl".into(), info.cone_calls);
@@ -495,14 +515,18 @@ pub fn run(opts: &Opts, rep: &Report) {
         if info.symbols_perturbed.iter().any(|n| *n > 0) {
             rep.distinct_hashes(&[hash64(&spec_key(spec))]);
         }
-        if let Some(f) = f {
+        if !fs.is_empty() {
             rep.add("systems_failing", 1);
-            report(spec, &f, idx as u64, rep);
+        }
+        for f in fs {
+            failing.offer(&format!("{}|{}|{}", f.class, f.variant, f.shape), idx as u64, || (spec.clone(), f.clone()));
         }
         if idx % 5003 == 11 {
             rep.sample(json!({"system": spec.to_json(), "roots": info.roots, "strict_subset_cones": info.strict_subset, "pair_states": info.pair_states, "perturbed_steps": info.perturbed_steps}));
         }
     });
+    let failing = failing.drain();
+    failing.par_iter().for_each(|(order, (spec, f))| report(spec, f, *order, rep));
     if capped.load(Ordering::Relaxed) {
         rep.cap_hit(&format!("wall budget {}s: {} systems not checked", opts.budget_s, skipped.load(Ordering::Relaxed)));
     }
@@ -517,7 +541,7 @@ pub fn run(opts: &Opts, rep: &Report) {
 
 pub fn replay(case: &Value, rep: &Report) {
     let spec = SysSpec::from_json(&case["system"]).expect("system");
-    if let (Some(f), _) = check_system(&spec) {
+    for f in check_system(&spec).0 {
         report(&spec, &f, 0, rep);
     }
 }
